@@ -27,6 +27,7 @@ class Repo(object):
         self._src = {}
         self._tree = {}
         self.consulted = set()
+        self.normalize_log = []
 
     def with_override(self, rel, text):
         ov = dict(self.overrides)
@@ -59,6 +60,10 @@ class Repo(object):
                 t = ast.parse(self.source(rel), filename=rel)
             except SyntaxError as e:
                 raise AnchorError("cannot parse %s: %s" % (rel, e))
+            if not os.environ.get("VERIF_NO_NORMALIZE"):
+                from .normalize import normalize
+                t, log = normalize(t, rel)
+                self.normalize_log.extend("%s: %s" % (rel, l) for l in log)
             for n in ast.walk(t):
                 for c in ast.iter_child_nodes(n):
                     c._parent = n
